@@ -1192,6 +1192,8 @@ class PDFPageInterpreter:
                 [xobj],
                 ctm=mult_matrix(matrix, self.ctm),
             )
+            # the form's interpreter shares the device: give it back our CTM
+            self.device.set_ctm(self.ctm)
             self.device.end_figure(xobjid)
         elif subtype is LITERAL_IMAGE and "Width" in xobj and "Height" in xobj:
             self.device.begin_figure(xobjid, (0, 0, 1, 1), MATRIX_IDENTITY)
